@@ -753,6 +753,15 @@ func (w *SessWorld) Disconnect(s *SS, mode string) []string {
 // reference counters, election state, the session table, held operations.
 func (w *SessWorld) CompareState() []string {
 	var probs []string
+	// (the hooks take the server's and the RIB's locks: on a wedged server they never return)
+	if !w.X.guarded("hooked server state", func() { probs = w.compareState() }) {
+		return []string{deadMsg}
+	}
+	return probs
+}
+
+func (w *SessWorld) compareState() []string {
+	var probs []string
 	save := w.X.CheckHeld
 	w.X.CheckHeld = false
 	probs = append(probs, w.X.Compare()...)
